@@ -245,6 +245,10 @@ class EffectDomain(DefaultDomain):
             return None
         if a == b:
             return True
+        for x, y in ((a, b), (b, a)):
+            if isinstance(x, tuple) and x[:1] == ("typeof",) and isinstance(x[1], tuple) and x[1][:1] == ("exc",) and isinstance(y, tuple) and y[:1] in (("excclass",), ("ctorref",), ("classref",)):
+                cname = y[1].split(".")[-1] if isinstance(y[1], str) else getattr(y[1], "name", None)
+                return x[1][1] == cname   # type(e) is exactly that class
         oka, ka = self._dkey(a)
         okb, kb = self._dkey(b)
         if oka and okb:
@@ -409,6 +413,14 @@ class EffectDomain(DefaultDomain):
                 isinstance(v, tuple) and v and v[0] in self.IDENTITY_TAGS + ("const", "tuple", "kwdict", "set") or v in (NONE, TRUE, FALSE) for v in (left, right)):
             # a module-level `object()` sentinel is identical to nothing but itself
             return "F" if isinstance(op, ast.Is) else "T"
+        if isinstance(op, (ast.Eq, ast.NotEq, ast.Is, ast.IsNot)) and TOP not in (left, right) and any(
+                isinstance(v, tuple) and v[:1] == ("sym",) and isinstance(v[1], str) and v[1].startswith(("<object #", "<module sentinel")) for v in (left, right)):
+            # a plain object() compares equal to itself only
+            return "T" if (left == right) == isinstance(op, (ast.Eq, ast.Is)) else "F"
+        if isinstance(op, (ast.Is, ast.IsNot, ast.Eq, ast.NotEq)) and any(isinstance(v, tuple) and v[:1] == ("typeof",) for v in (left, right)):
+            same = self._same_element(left, right)
+            if same is not None:
+                return "T" if same == isinstance(op, (ast.Is, ast.Eq)) else "F"
         if isinstance(op, (ast.Is, ast.IsNot)) and all(isinstance(v, tuple) and v and v[0] in self.IDENTITY_TAGS for v in (left, right)):
             # distinct symbolic objects are distinct objects
             return "T" if (left == right) == isinstance(op, ast.Is) else "F"
@@ -422,6 +434,8 @@ class EffectDomain(DefaultDomain):
                     verdicts.append("F")
                 elif self._py(left)[0] and self._py(el)[0]:
                     verdicts.append("T" if self._py(left)[1] == self._py(el)[1] else "F")
+                elif self._same_element(left, el) is not None:
+                    verdicts.append("T" if self._same_element(left, el) else "F")
                 else:
                     verdicts.append("?")
             if "T" in verdicts:
